@@ -83,6 +83,7 @@ type Obligation struct {
 	Answers map[string]string
 	nDecl, nAssert, nQ, nReads int
 	origin  *ssa.BasicBlock
+	weakB2I bool
 }
 
 type QHyp struct {
@@ -182,6 +183,7 @@ type Eng struct {
 	errOutOfSubset error
 	curOrigin      *ssa.BasicBlock
 	specMath       int
+	weakB2I        bool
 }
 
 func (e *Eng) idxSort() string {
@@ -399,7 +401,20 @@ func (e *Eng) byteToIdx(b string) string {
 	if e.mode == ModeBV {
 		return sx("(_ zero_extend 56)", b)
 	}
-	return sx("bv2nat", b)
+	return e.b2i(b)
+}
+
+// b2i: byte -> Int.  Literals are folded.  The symbol b2i is defined in the
+// query header either exactly (bv2nat) or, with option weakb2i, as an
+// uninterpreted function with range / top-bit / low-mask axioms (sound, and
+// keeps integer reasoning free of bit-level bridging).
+func (e *Eng) b2i(b string) string {
+	if strings.HasPrefix(b, "#x") && len(b) == 4 {
+		var v int
+		fmt.Sscanf(b[2:], "%x", &v)
+		return fmt.Sprint(v)
+	}
+	return sx("b2i", b)
 }
 
 // ---------------------------------------------------------------------------
@@ -886,9 +901,25 @@ func (e *Eng) addQ(q *QHyp) {
 	e.pre.qhyps = append(e.pre.qhyps, q)
 }
 
-func (e *Eng) alias(sym, key string) {
+// alias records that two array keys (region terms / array symbols) may denote
+// the same array (union-find); instantiation matches keys up to this relation.
+func (e *Eng) alias(a, b string) {
 	if e.pre.aliases == nil {
 		e.pre.aliases = map[string]string{}
 	}
-	e.pre.aliases[sym] = key
+	ra, rb := findKey(e.pre.aliases, a), findKey(e.pre.aliases, b)
+	if ra != rb {
+		e.pre.aliases[ra] = rb
+	}
+}
+
+func findKey(m map[string]string, k string) string {
+	for i := 0; i < 64; i++ {
+		p, ok := m[k]
+		if !ok || p == k {
+			return k
+		}
+		k = p
+	}
+	return k
 }
